@@ -55,6 +55,8 @@ class SubstituteInterpretation(Interpretation):
         super().__init__("subs")
         self.subs = subs
         self.base_interpretation = base_interpretation
+        # fresh names of the node currently being rebuilt (set by substitute())
+        self.fresh = None
         assert isinstance(subs, tuple)
         assert all(isinstance(v, Funsor) for k, v in subs)
 
@@ -65,7 +67,11 @@ class SubstituteInterpretation(Interpretation):
     def interpret(self, cls, *args):
         with self.base_interpretation:
             expr = cls(*args)
-            fresh_subs = tuple((k, v) for k, v in self.subs if k in expr.fresh)
+            # Substitute only names that the ORIGINAL node introduces: a name that
+            # re-appears because an already substituted child was evaluated (e.g.
+            # x + a[b] at x = t[b], b = 1) belongs to the caller's environment.
+            fresh = expr.fresh if self.fresh is None else expr.fresh & self.fresh
+            fresh_subs = tuple((k, v) for k, v in self.subs if k in fresh)
             if fresh_subs:
                 expr = instrument.debug_logged(expr.eager_subs)(fresh_subs)
             if instrument.PROFILE:
@@ -90,8 +96,9 @@ def substitute(expr, subs):
 
     env = interpreter.anf(expr, stop)
 
-    with SubstituteInterpretation(subs, interpreter.get_interpretation()):
+    with SubstituteInterpretation(subs, interpreter.get_interpretation()) as interp:
         for key, value in env.items():
+            interp.fresh = value.fresh if isinstance(value, Funsor) else frozenset()
             args = tuple(
                 c if interpreter.is_atom(c) else env.get(c, c)
                 for c in interpreter.children(value)
